@@ -908,6 +908,10 @@ impl rustc_driver::Callbacks for Cb {
                             ("module", esc(&cx.path(nearest_mod(tcx, id)))),
                             ("vis", cx.vis(did)),
                             ("ukind", esc(&format!("{:?}", ukind).split('(').next().unwrap_or("").to_string())),
+                            // the name the import binds (`use a::B as c` binds `c`), and whether it sits directly in a module
+                            ("name", esc(&match ukind { rustc_hir::UseKind::Single(ident) => ident.name.as_str().to_string(), _ => String::new() })),
+                            ("in_mod", b(tcx.def_kind(tcx.parent(did)) == DefKind::Mod)),
+                            ("owner", esc(&cx.path(tcx.parent(did)))),
                             ("targets", arr(targets)),
                             ("span", cx.span(item.span)),
                         ]));
